@@ -124,7 +124,22 @@ impl<'a> Gen<'a> {
             } else {
                 *self.rng.pick(HASH_EXTS)
             };
-            let stem = *self.rng.pick(STEMS);
+            // the same file name at two levels of the tree is an interesting shape (a path
+            // resolved against the wrong directory then still finds *a* file)
+            let reuse = if dirs && !out.is_empty() && self.rng.chance(1, 4) {
+                let o = self.rng.pick(&out).clone();
+                o.rsplit('/').next().and_then(|n| n.rsplit_once('.')).map(|(s, e)| (s.to_string(), e.to_string()))
+            } else {
+                None
+            };
+            let (stem, ext): (String, &str) = match &reuse {
+                Some((s, e)) if HASH_EXTS.contains(&e.as_str()) || WRAP_EXTS.contains(&e.as_str()) => {
+                    let e: &'static str = HASH_EXTS.iter().chain(WRAP_EXTS.iter()).find(|x| **x == e.as_str()).unwrap();
+                    (s.clone(), e)
+                }
+                _ => (self.rng.pick(STEMS).to_string(), ext),
+            };
+            let stem = stem.as_str();
             let depth = if dirs { self.rng.below(3) } else { 0 };
             let mut p = String::new();
             for _ in 0..depth {
